@@ -796,6 +796,17 @@ class Exec:
             self.check_frame(oid, m, what)
         self.dict_wf_at(d, k.t)
         present = z3.Select(self.ddom(d), k.t)
+        if not self.spec and self.c.opts.get("branch_dict_set") and self.fi.qualname == self.c.target:
+            # contract option: decide "key already present?" by a path split instead of an
+            # if-then-else inside the key order (smaller terms; both outcomes are still checked)
+            if self.branch(present, "haskey"):
+                new_seq = self.seq(d)
+            else:
+                new_seq = z3.Concat(self.seq(d), z3.Unit(k.t))
+            self.wr("seq", oid, new_seq)
+            self.wr("dmap", oid, z3.Store(self.dmap(d), k.t, v.t))
+            self.wr("ddom", oid, z3.Store(self.ddom(d), k.t, z3.BoolVal(True)))
+            return
         self.wr("seq", oid, z3.If(present, self.seq(d), z3.Concat(self.seq(d), z3.Unit(k.t))))
         self.wr("dmap", oid, z3.Store(self.dmap(d), k.t, v.t))
         self.wr("ddom", oid, z3.Store(self.ddom(d), k.t, z3.BoolVal(True)))
